@@ -103,7 +103,8 @@ def determinism(argv):
                        'identical': ok, 'twice_ok': ok2})
         if not (ok and ok2):
             bad += 1
-    with open(os.path.join(VERIF, 'evidence', 'selftest-determinism.json'),
+    os.makedirs(os.path.join(VERIF, 'selftest', 'reports'), exist_ok=True)
+    with open(os.path.join(VERIF, 'selftest', 'reports', 'determinism.json'),
               'w') as f:
         json.dump({'seed': seed, 'report': report}, f, indent=1)
     print('determinism: %d properties, %d bad' % (len(pids), bad))
